@@ -2,7 +2,8 @@
 from lib import *  # noqa
 
 TECHNIQUE = ("sort-key mutation typestate (every write of a key field of a linked server is followed by re-insertion), comparator-shape table, "
-             "selection-source census in ares_send_query, 'best class' counting shape, health-update-before-retry dominance, probe isolation checks")
+             "selection-source census in ares_send_query, 'best class' counting shape, health-update-before-retry dominance, probe isolation checks"
+             ", dataflow of the configuration position counter, argument provenance of end_query for the probe flag")
 LEVEL_TEXT = ("static: decides on every path that (a) the server order is never stale: each write to consec_failures/idx of a linked server is followed "
               "by ares_slist_node_reinsert before the list order is read, the comparator orders by (consec_failures, idx) ascending, and a server-list "
               "update always walks the new list re-assigning positions; (b) an attempt without a requested server goes to the list head or to an "
